@@ -354,6 +354,15 @@ def judge_fork(ctx, rng, code, pred, nscripts, prefork=None):
     ]
     for k_, (tmpl, wantb) in enumerate(pairs):
         sources[f'placed{k_}'] = tmpl.format(name)
+    # every way of writing the count byte: d / x, values past 9 and past 127
+    counts = []
+    for cc in (0, 9, 10, 15, 16, 0x25, 0x7f, 0x80, 0xa0, 0xff,
+               rng.randrange(256)):
+        counts.append((f'x{cc:02x}', cc))
+        counts.append((f'x{cc:02X}', cc))
+        counts.append((f'd{cc}', cc))
+    for k_, (txt, cc) in enumerate(counts):
+        sources[f'count{k_}'] = f'{rng.choice((name, aliases[0]))} {txt}'
     inp = {'code': code, 'pred': pred, 'name': name, 'aliases': aliases,
            'scripts': scripts, 'sources': sources,
            'prefork': (rng.random() < 0.6) if prefork is None else prefork}
@@ -403,6 +412,25 @@ def judge_fork(ctx, rng, code, pred, nscripts, prefork=None):
                                              code, 'label': f'placed{k_}',
                                              'src': tmpl.format(name)},
                           wantb.hex(), f'upgraded={up!r} plain={plain_b!r}'[:200])
+    for k_, (txt, cc) in enumerate(counts):
+        ctx.evaluated()
+        up = out['compiled'].get(f'count{k_}')
+        wantb = bytes([code, cc])
+        plain_b = None
+        if txt[0] == 'x' or cc < 128:
+            # the NOP it replaces takes the same text (its d form is signed)
+            try:
+                plain_b = parsing.compile_script(f'NOP{code} {txt}')
+            except BaseException as e:
+                plain_b = 'ERR ' + repr(e)[:100]
+        if up != wantb or (plain_b is not None and plain_b != wantb):
+            ctx.violation('fork-compile-differs', f'count written {txt}: the '
+                          'forked spelling on the upgraded VM and the NOPn '
+                          'spelling do not both give <code><count>',
+                          {'kind': 'fork-compile', 'code': code,
+                           'label': f'count:{txt}', 'src': sources[f'count{k_}']},
+                          wantb.hex(), f'upgraded={up!r} plain={plain_b!r}'[:200])
+            break
     if out.get('recompiled') != b'\x01\x01' + bytes([code, 2]) or \
             not isinstance(out.get('decompiled'), list) or \
             not any(name in ln for ln in out['decompiled']):
